@@ -34,7 +34,7 @@ def run(F, R, tier):
         nxt_lid = None
         if lp["k"] == "While" and lp["cond"].get("k") == "Let":
             init = peel(lp["cond"]["init"])
-            if init.get("k") == "MethodCall" and init["name"] == "get" and peel(init["recv"]).get("field") == "redirects":
+            if init.get("k") == "MethodCall" and init["name"] == "get" and field_of(init["recv"]) == "redirects":
                 cur_lid = peel_value(init["args"][0]).get("lid")
             bs = pat_bindings(lp["cond"]["pat"])
             nxt_lid = bs[0]["lid"] if bs else None
@@ -82,7 +82,7 @@ def run(F, R, tier):
             continue
         lookup_fns.append(b["path"])
         for n in b["_nodes"]:
-            if n.get("k") == "MethodCall" and n["name"] in ("get", "contains_key", "get_key_value") and peel(n["recv"]).get("field") == "module_slots" and peel(n["recv"]).get("adt") == "graph::ModuleGraph":
+            if n.get("k") == "MethodCall" and n["name"] in ("get", "contains_key", "get_key_value") and field_of(n["recv"]) == "module_slots" and peel(n["recv"]).get("adt") == "graph::ModuleGraph":
                 n_keys += 1
                 leaves = S.origins(n["args"][0])
                 bad = [l for l in leaves if l.kind != "src"]
@@ -97,7 +97,7 @@ def run(F, R, tier):
     # the error iterator's own lookup
     cr = F.body("graph::ModuleGraphErrorIterator::check_resolution")
     for n in cr["_nodes"]:
-        if n.get("k") == "MethodCall" and n["name"] == "get" and peel(n["recv"]).get("field") == "module_slots":
+        if n.get("k") == "MethodCall" and n["name"] == "get" and field_of(n["recv"]) == "module_slots":
             leaves = S.origins(n["args"][0])
             R.ob("C14-b", "check_resolution: module_slots key comes from ModuleGraph::resolve", bool(leaves) and all(l.kind == "src" for l in leaves),
                  "error walk looks up a dependency target without following redirects", where(n))
@@ -106,12 +106,12 @@ def run(F, R, tier):
     # while building, entries are filed under the redirect-mapped specifier: a
     # specifier never holds both a redirect and an entry of its own
     lw = F.body("graph::Builder::load_with_redirect_count")
-    mapped = [n for n in lw["_nodes"] if n.get("k") == "LetStmt" and "init" in n and any(y.get("k") == "MethodCall" and y["name"] == "get" and peel(y["recv"]).get("field") == "redirects" for y in walk(n["init"]))]
+    mapped = [n for n in lw["_nodes"] if n.get("k") == "LetStmt" and "init" in n and any(y.get("k") == "MethodCall" and y["name"] == "get" and field_of(y["recv"]) == "redirects" for y in walk(n["init"]))]
     if R.ob("C14-d", "load_with_redirect_count maps the specifier through known redirects", len(mapped) == 1, "shape changed", lw["file"]):
         mlid = mapped[0]["pat"].get("lid")
         n_i = 0
         for n in lw["_nodes"]:
-            if n.get("k") == "MethodCall" and n["name"] == "insert" and peel(n["recv"]).get("field") == "module_slots":
+            if n.get("k") == "MethodCall" and n["name"] == "insert" and field_of(n["recv"]) == "module_slots":
                 n_i += 1
                 k_ = peel_value(n["args"][0])
                 ok = k_.get("lid") == mlid or any(peel_value(y).get("lid") == mlid for y in through_locals(k_))
@@ -120,33 +120,53 @@ def run(F, R, tier):
         R.floor("C14-d slot inserts in load_with_redirect_count", n_i, 5)
 
     # ---------------- C14-c ------------------------------------------------
-    def slot_match(fnname):
+    def slot_values(fnname):
+        """(value, slot kinds named by the patterns that must have matched on
+        the path to it) for every value the function can return; independent
+        of whether the code says `match`, `if let` or `let .. else`."""
         b = F.body(fnname)
-        ms = [n for n in walk(b["body"]) if n["k"] == "Match" and any("module_slots" in expr_text(x) for x in [n["scrut"]])]
-        return b, ms
+        vals = []
+        _tail_values(F, b["body"]["value"], vals)
+        for r in walk(b["body"]["value"]):
+            if r.get("k") == "Ret" and "e" in r:
+                _tail_values(F, r["e"], vals)
+        out = []
+        for v in vals:
+            kinds = set()
+            for x in guards_at(F, v):
+                if x.kind == "pat" and x.pol and tyc(F, x.scrut, "graph::ModuleSlot"):
+                    pt = pat_text(x.pat)
+                    for kd in ("Module", "Err", "Pending"):
+                        if "graph::ModuleSlot::%s" % kd in pt:
+                            kinds.add(kd)
+            out.append((v, kinds))
+        return b, out
 
-    b, ms = slot_match("graph::ModuleGraph::get")
-    if R.ob("C14-c", "get matches on the slot", len(ms) == 1, "shape changed", b["file"]):
-        for arm in ms[0]["arms"]:
-            vals = []
-            _tail_values(F, arm["body"], vals)
-            pt = pat_text(arm["pat"])
-            some = any(ctor_of(v) == "std::option::Option::Some" for v in vals)
-            is_mod = "graph::ModuleSlot::Module" in pt and "graph::ModuleSlot::Err" not in pt and "Pending" not in pt
-            R.ob("C14-c", "get: arm `%s`" % pt[:60], some == is_mod, "get() returns Some for a slot that is not a module, or None for a module", where(arm["body"]))
-    b, ms = slot_match("graph::ModuleGraph::try_get")
-    if R.ob("C14-c", "try_get matches on the slot", len(ms) == 1, "shape changed", b["file"]):
-        for arm in ms[0]["arms"]:
-            vals = []
-            _tail_values(F, arm["body"], vals)
-            pt = pat_text(arm["pat"])
-            if "graph::ModuleSlot::Err" in pt:
-                ok = all(ctor_of(v) == "std::result::Result::Err" for v in vals)
-            elif "graph::ModuleSlot::Module" in pt:
-                ok = all(ctor_of(v) == "std::result::Result::Ok" and ctor_of(peel(v["args"][0])) == "std::option::Option::Some" for v in vals)
-            else:
-                ok = all(ctor_of(v) == "std::result::Result::Ok" and ctor_of(peel(v["args"][0])) == "std::option::Option::None" for v in vals)
-            R.ob("C14-c", "try_get: arm `%s`" % pt[:60], ok, "try_get maps slot kind `%s` to `%s`" % (pt[:40], [expr_text(v)[:30] for v in vals]), where(arm["body"]))
+    b, vs = slot_values("graph::ModuleGraph::get")
+    n_some = 0
+    for v, kinds in vs:
+        some = ctor_of(v) == "std::option::Option::Some"
+        none = ctor_of(v) == "std::option::Option::None"
+        n_some += some
+        if not (some or none):
+            R.ob("C14-c", "get returns a literal Some/None per slot kind", False, "get() returns `%s`, which the slot-kind rule cannot classify" % expr_text(v)[:40], where(v))
+            continue
+        R.ob("C14-c", "get: value under slot kinds %s" % sorted(kinds), some == (kinds == {"Module"}), "get() returns Some for a slot that is not a module, or None for a module", where(v))
+    R.ob("C14-c", "get returns Some on some path", n_some >= 1, "shape changed: no `Some(module)` result found in ModuleGraph::get", b["file"])
+    b, vs = slot_values("graph::ModuleGraph::try_get")
+    n_cls = set()
+    for v, kinds in vs:
+        if kinds == {"Err"}:
+            ok = ctor_of(v) == "std::result::Result::Err"
+        elif kinds == {"Module"}:
+            ok = ctor_of(v) == "std::result::Result::Ok" and ctor_of(peel(v["args"][0])) == "std::option::Option::Some"
+        elif not kinds:
+            ok = ctor_of(v) == "std::result::Result::Ok" and ctor_of(peel(v["args"][0])) == "std::option::Option::None"
+        else:
+            ok = False
+        n_cls.add(tuple(sorted(kinds)))
+        R.ob("C14-c", "try_get: value under slot kinds %s" % sorted(kinds), ok, "try_get maps slot kind %s to `%s`" % (sorted(kinds), expr_text(v)[:30]), where(v))
+    R.ob("C14-c", "try_get distinguishes module / error / other slots", {("Err",), ("Module",), ()} <= n_cls, "shape changed: try_get no longer has a result per slot kind (found %s)" % sorted(n_cls), b["file"])
     b = F.body("graph::ModuleGraph::contains")
     mm = [n for n in walk(b["body"]) if n["k"] == "Match" and "matches" in (n.get("mac") or [])]
     R.ob("C14-c", "contains is true exactly for module slots", len(mm) == 1 and pat_text(mm[0]["arms"][0]["pat"]).startswith("graph::ModuleSlot::Module("),
